@@ -1,8 +1,48 @@
 import CM.Lib.Wire
-/-! Driver handler for C06 (stub: not built yet). -/
+import CM.Model.Bundle
+/-! Driver handler for C06: which key identifier each successful operation of a history
+leaves in storage (fresh / reused / never a quarantined one), and which issuer's bundle
+is loaded. The byte-level facts (documented keys, key matches leaf, reload equal, names)
+are judged by Go-side oracles. -/
 namespace CM.Drv.C06
-open CM.Wire
+open CM.Wire CM.Bundle
 
-def handle (_args _impl : List String) : String := bad
+/-- replay a history on the model; key ids are numbered in order of first appearance, as
+the harness numbers the real public keys -/
+def replay (reuse : Bool) : List String → Slots → Nat → List String → List String
+  | [], _, _, acc => acc.reverse
+  | op :: rest, s, nextKey, acc =>
+    let e : Env := { reuse := reuse, fresh := nextKey, ser := nextKey + 100, now := acc.length }
+    if op.endsWith ":err" then replay reuse rest s nextKey ("-" :: acc)
+    else
+      let s' :=
+        if op = "obtain" || op = "obtain:noop" then obtain e s
+        else if op = "renew" then (match renew e s with | some t => t | none => s)
+        else if op = "compromise" then replaceCompromised e s
+        else s
+      let used := match s'.key with | some k => k | none => 0
+      let nextKey' := if used = nextKey then nextKey + 1 else nextKey
+      replay reuse rest s' nextKey' (toString used :: acc)
+
+def handle (args impl : List String) : String :=
+  match args with
+  | ["hist", reuse, ops] =>
+    let obs := replay (reuse = "1") (ops.splitOn ",") Slots.empty 1 []
+    reply (String.intercalate "," obs) (if impl.isEmpty then "-" else "ok") (reuse ++ ":" ++ ops)
+  | ["newest", items] =>
+    let slots := (items.splitOn ",").filterMap (fun it =>
+      match it.splitOn ":" with
+      | [st, nb] => match nb.toNat? with
+        | some nb =>
+          let c : Crt := { pub := 1, ser := 1, nb := nb }
+          if st = "ok" then some { key := some 1, crt := some c, mta := some 1, compromised := none }
+          else if st = "nokey" then some { key := none, crt := some c, mta := some 1, compromised := none }
+          else if st = "nometa" then some { key := some 1, crt := some c, mta := none, compromised := none }
+          else some Slots.empty
+        | none => none
+      | _ => none)
+    let m := match newest slots with | some c => toString c.nb | none => "none"
+    reply m (if impl.isEmpty then "-" else "ok") items
+  | _ => bad
 
 end CM.Drv.C06
